@@ -9,20 +9,14 @@ use robopoker::gameplay::action::Action;
 use robopoker::gameplay::ply::Turn;
 use rpharness::*;
 
-/// dealing half: along random histories of the real Game (with the engine's own offered draws
-/// and with forced ones) hole cards and board stay pairwise disjoint, `Game::deck()` is the
-/// complement of the cards in play, and every offered draw consists of cards not in play.
-/// Oracle written from the property text; the `game` / `deck` / `allowed` lines are replayed by
-/// the Lean model (`deck` lines only in the standard-deck build: the model's mask is the 52-card one).
-fn game_stream(run: &mut Run, rng: &mut Rng, n_hist: usize) {
+fn game_history(run: &mut Run, rng: &mut Rng, deals: &[gamewalk::Deal], full: u64, h: usize) {
     use gamewalk::*;
-    let full = bits(hand(Hand::mask()));
-    ambient::install();
-    let deals = make_deals(rng, 48);
-    for h in 0..n_hist {
         let deal = &deals[h % deals.len()];
         let style = 1 + (h / deals.len()) as u64 % 2 * 3; // passive lines reach the river, mixed with uniform ones
-        let (hist, states) = random_history(rng, deal, style);
+        let (hist, states, issues) = random_history_checked(rng, deal, style);
+        for (class, input, expected, got) in &issues {
+            run.fail(class, input, expected, got);
+        }
         run.evaluations += states.len() as u64;
         let name = format!("{} {} | {}", deal.h0, deal.h1, hist_tok(&hist));
         run.line(&format!("game {name}"), &states.iter().map(state_line).collect::<Vec<_>>().join(" ; "));
@@ -58,19 +52,26 @@ fn game_stream(run: &mut Run, rng: &mut Rng, n_hist: usize) {
                     if d != full & !(h0 | h1 | b) {
                         run.fail("deck-not-complement", &format!("deck {at}"), &format!("{}", full & !(h0 | h1 | b)), &format!("{d}"));
                     }
-                    if !is_shortdeck() && (i == states.len() - 1 || g.turn() == Turn::Chance) {
+                    if !is_shortdeck() && (i == states.len() - 1 || try_turn(g) == Some(Turn::Chance)) {
                         run.line(&format!("deck {at}"), &format!("{d} {b} {h0} {h1}"));
                     }
-                    if g.turn() == Turn::Chance {
+                    if try_turn(g) == Some(Turn::Chance) {
                         // the engine's offers: never a card in play, right size, accepted
                         let mut offers = vec![];
                         for _ in 0..4 {
-                            let o = offered(g, rng);
+                            let (gg, mut r2) = (*g, rng.fork());
+                            let o = match catch(move || offered(&gg, &mut r2)) {
+                                Some(o) => o,
+                                None => {
+                                    run.fail("offered-draw-panics", &format!("deck {at}"), "cards", "panic");
+                                    continue;
+                                }
+                            };
                             let ob = bits(o);
                             run.evaluations += 1;
                             run.spec_checked += 1;
                             let want = if b == 0 { 3 } else { 1 };
-                            if ob & (h0 | h1 | b) != 0 || ob & !d != 0 || ob.count_ones() != want || !g.is_allowed(&Action::Draw(o)) {
+                            if ob & (h0 | h1 | b) != 0 || ob & !d != 0 || ob.count_ones() != want || try_allowed(g, &Action::Draw(o)) != Some(true) {
                                 run.fail("offered-draw-in-play", &format!("deck {at}"), &format!("{want} cards of the deck {d}, accepted"), &format!("offer {ob}"));
                             }
                             offers.push(Action::Draw(o));
@@ -128,6 +129,24 @@ fn game_stream(run: &mut Run, rng: &mut Rng, n_hist: usize) {
                 }
             }
             run.count(&format!("game-state:{}", street_name(g)));
+        }
+}
+
+/// dealing half: along random histories of the real Game (with the engine's own offered draws
+/// and with forced ones) hole cards and board stay pairwise disjoint, `Game::deck()` is the
+/// complement of the cards in play, and every offered draw consists of cards not in play.
+/// Oracle written from the property text; the `game` / `deck` / `allowed` lines are replayed by
+/// the Lean model (`deck` lines only in the standard-deck build: the model's mask is the 52-card one).
+fn game_stream(run: &mut Run, rng: &mut Rng, n_hist: usize) {
+    use gamewalk::*;
+    let full = bits(hand(Hand::mask()));
+    ambient::install();
+    let deals = make_deals(rng, 48);
+    for h in 0..n_hist {
+        let r = std::panic::catch_unwind(std::panic::AssertUnwindSafe(|| game_history(run, rng, &deals, full, h)));
+        if r.is_err() {
+            log::set_max_level(log::LevelFilter::Off);
+            run.fail("engine-panics-outside-catch", &format!("game history #{h} (deal {} {})", deals[h % deals.len()].h0, deals[h % deals.len()].h1), "no panic", "panic");
         }
     }
 }
